@@ -1,6 +1,6 @@
 """Evaluate a seeded change (made by a sub-agent in a scratch worktree) against the checks.
 
-usage: /venv/bin/python tools/seed_eval.py Cxx /tmp/seed/Cxx [--suite] [--also Cyy ...]
+usage: /venv/bin/python tools/seed_eval.py Cxx /tmp/seed/Cxx [--suite] [--as Cxx-r2] [--also Cyy ...]
 
  1. saves the worktree diff, demonstration and meta data under /verif/seeded/<id>/
  2. applies the diff to /repo, runs the demonstration there (exit 0 = violation shown), optionally the pinned test suite,
@@ -26,8 +26,9 @@ def main():
     suite = '--suite' in sys.argv
     also = []
     if '--also' in sys.argv:
-        also = [a for a in sys.argv[sys.argv.index('--also') + 1:] if a.startswith('C')]
-    d = os.path.join(VERIF, 'seeded', pid)
+        also = [a for a in sys.argv[sys.argv.index('--also') + 1:] if a.startswith('C') and '-' not in a]
+    name = sys.argv[sys.argv.index('--as') + 1] if '--as' in sys.argv else pid
+    d = os.path.join(VERIF, 'seeded', name)
     os.makedirs(d, exist_ok=True)
     rc, diff = sh('git diff -- photutils', cwd=wt)
     if not diff.strip():
